@@ -34,6 +34,8 @@ Adv2(a, b) == cur' = [cur EXCEPT ![a] = @ + 1, ![b] = @ + 1]
 Same == UNCHANGED <<r, fl, gl, hl, il>>
 Task(e) == [id |-> e.tok, op |-> e.op, f |-> e.f, g |-> e.g, h |-> e.h]
 AllCauses == {"converge", "recerr", "mdone", "probstatus"}
+\* Run.rl = 1: Settings.Runtime is one nanosecond - elapsed at every major iteration
+RunCauses == AllCauses \cup (IF Run.rl = 1 THEN {"runtime"} ELSE {})
 
 (* ---- the Method, as observed by the recording proxy (no bound on sends, no assumption   *)
 (* ---- about which tokens it holds: only the channel effects and the shutdown contract) -- *)
@@ -54,6 +56,37 @@ TMRecv ==
 \* the proxy saw results closed (needed before MClose is enabled; no model change)
 TMSawClosed == /\ Has("MR") /\ Ev("MR").e = "MResClosed" /\ resClosed /\ res = <<>>
                /\ UNCHANGED vars /\ Adv1("MR") /\ Same
+
+(* ---- Minimize called with method == nil: "an appropriate default is chosen based on the     *)
+(* ---- properties of the other arguments (dimension, gradient-free or gradient-based, etc.)".   *)
+(* ---- No proxy can be put around a method the caller never sees: the logs MO / MR are missing   *)
+(* ---- and the method moves silently - it sends exactly the task the distributor is about to     *)
+(* ---- receive, takes results whenever there are any, and closes operations when the             *)
+(* ---- distributor has nothing more to drain.  Everything else (distributor, workers, stats      *)
+(* ---- loop, counters, Result) is judged as in any other run.                                    *)
+SMSend ==
+    /\ Run.defm = 1 /\ Has("D") /\ Ev("D").e \in {"DRecvOp", "DDrainOp"}
+    /\ ops = <<>> /\ mstate \in {"run", "post", "sentdone"}
+    /\ OpsSend(Task(Ev("D")))
+    /\ mstate' = IF Ev("D").op = "mdone" /\ mstate = "run" THEN "sentdone" ELSE mstate
+    /\ msends' = msends + 1 /\ mheld' = mheld \ {Ev("D").tok}
+    /\ UNCHANGED <<opsClosed, res, resClosed, doneClosed, wcClosed, scClosed, dist, work, stat,
+                   stats3, calls3, iters, posts, final, run>>
+    /\ UNCHANGED <<r, cur, fl, gl, hl, il>>
+SMRecv == /\ Run.defm = 1 /\ res # <<>> /\ MRecv /\ UNCHANGED <<r, cur, fl, gl, hl, il>>
+SMClose == /\ Run.defm = 1 /\ Has("D") /\ Ev("D").e = "DExit" /\ MClose /\ UNCHANGED <<r, cur, fl, gl, hl, il>>
+
+\* the evaluations the distributor received, in order
+DEvals == SelectSeq(Run.logs["D"], LAMBDA e : e.e \in {"DRecvOp", "DDrainOp"} /\ e.op = "eval")
+\* The default is "gradient-free or gradient-based" by what the Problem offers: with a Grad function the
+\* first evaluation (the start point) asks for the gradient, without one no evaluation ever does; the
+\* Hessian is never asked for unless the Problem offers it.  (Which gradient-based / gradient-free method
+\* it is is left open.)  InitValues of these runs hold at most F.
+DefaultChoiceOK ==
+    /\ Len(DEvals) > 0 => DEvals[1].g = Run.hasg
+    /\ \A i \in 1 .. Len(DEvals) : /\ (Run.hasg = 0 => DEvals[i].g = 0)
+                                   /\ (Run.hash = 0 => DEvals[i].h = 0)
+    /\ Run.result.panicked = 0
 
 (* ------------------------------- distributor -------------------------------------- *)
 TDRecvOp == /\ Has("D") /\ Ev("D").e = "DRecvOp" /\ ops # <<>> /\ Head(ops) = Task(Ev("D"))
@@ -91,10 +124,10 @@ TWSendDone(w) ==
 \* the code logs SProc (status and counters) after the switch, except for signalDone
 TSProc ==
     /\ Has("S") /\ Ev("S").e = "SProc" /\ spc = "proc" /\ stask.op # "sigdone"
-    /\ SProcL(fl, gl, hl, il, AllCauses)
+    /\ SProcL(fl, gl, hl, il, RunCauses)
     /\ sstatus' = Ev("S").status /\ statsF' = Ev("S").nf /\ iters' = Ev("S").ni
     /\ Adv1("S") /\ Same
-SilentSigProc == /\ spc = "proc" /\ stask.op = "sigdone" /\ SProcL(fl, gl, hl, il, AllCauses)
+SilentSigProc == /\ spc = "proc" /\ stask.op = "sigdone" /\ SProcL(fl, gl, hl, il, RunCauses)
                  /\ UNCHANGED <<r, cur, fl, gl, hl, il>>
 TSCloseResults == /\ Has("S") /\ Ev("S").e = "SCloseResults" /\ resClosed /\ spc = "recv"
                   /\ UNCHANGED vars /\ Adv1("S") /\ Same
@@ -141,14 +174,54 @@ ResultOK ==
     \* initial point and reports a location as soon as the initial point has been evaluated
     /\ Run.result.ni > 0 => (Run.result.fx_ok = 1 /\ Run.result.x_eval = 1)
     /\ (Run.result.local = 1 /\ Run.result.ni > 0) => Run.result.noworse = 1
-    /\ (Run.result.local = 1 /\ Run.result.calls > 0) => Run.result.ni > 0
+    \* (a starting location with an invalid value or gradient is never reported: ErrFunc / ErrGrad below)
+    /\ (Run.result.local = 1 /\ Run.result.calls > 0 /\ Run.result.initf = "ok" /\ Run.result.initg = 0) => Run.result.ni > 0
     \* Location: "Gradient holds the first-order partial derivatives of the function at X": a reported
     \* gradient is the one the objective returned at the reported X in THIS run (the harness's objective
     \* wrapper remembers the gradient it returned for each evaluated X)
     /\ (Run.result.ni > 0 /\ Run.result.has_grad = 1) => Run.result.grad_ok = 1
+    /\ Run.result.nilres = 0 /\ Run.result.panicked = 0
+    /\ Run.defm = 1 => DefaultChoiceOK
+    \* ---- the error returned with the Result (identities of error values, never texts) ----
+    \* a Recorder error turns the step into Failure and is the error of the run ("recfail": which Record
+    \* call returned it - "mid": one between InitIteration and PostIteration; an error of the PostIteration
+    \* call comes after the run has ended and leaves its status alone)
+    /\ final = "fail" => Run.result.errkind = "recorder"
+    /\ Run.result.errkind = "recorder" => (final = "fail" \/ Run.result.recfail = "post")
+    /\ Run.result.recfail = "none" => Run.result.errkind # "recorder"
+    /\ Run.result.status = "fail" => Run.result.errkind # "none"
+    \* "ErrFunc is returned when an initial function value is invalid. The error state may be either +Inf or
+    \* NaN": a local method that got as far as judging its starting location (it then declares MethodDone)
+    \* ends in Failure with an ErrFunc holding that value - and with an ErrGrad naming an invalid component
+    \* when the value is fine but the gradient it asked for is not
+    /\ (Run.result.local = 1 /\ Run.result.initf # "ok" /\ final = "mconv")
+          => (Run.result.status = "fail" /\ Run.result.errkind = "errfunc")
+    /\ Run.result.errkind \in {"errfunc", "errfunc-othervalue"} => (Run.result.errkind = "errfunc" /\ Run.result.initf # "ok" /\ final = "mconv")
+    /\ (Run.result.local = 1 /\ Run.result.initf = "ok" /\ Run.result.initg = 1 /\ final = "mconv" /\ (statsG > 0 \/ Run.iv \in {2, 3, 6, 7}))
+          => (Run.result.status = "fail" /\ Run.result.errkind = "errgrad" /\ Run.result.errgrad_ok = 1)
+    /\ Run.result.errkind = "errgrad" => (Run.result.initg = 1 /\ Run.result.errgrad_ok = 1 /\ final = "mconv")
+    \* the statuses that name a property of the reported location
+    /\ Run.result.status_x = "FunctionNegativeInfinity" => (Run.result.f_neginf = 1 /\ Run.result.ni > 0)
+    /\ Run.result.status_x = "GradientThreshold" => (Run.result.has_grad = 1 /\ Run.result.gthr_ok = 1)
+    /\ Run.result.status = "rlimit" => (Run.rl = 1 /\ Run.result.ni > 0)
+    \* a value of -Inf that became the reported location ended the run there and then, unless it was over already
+    /\ (Run.result.f_neginf = 1 /\ Run.result.ni > 0) => final \in {"converged", "flimit", "glimit", "hlimit", "fail", "probstatus"}
+
+\* A call Minimize has to refuse: "Minimize panics if the Problem is not consistent with the Method (Uses
+\* returns an error)"; an error of Recorder.Init, of the Problem's Status when first asked, or of the
+\* InitIteration Record is returned with no Result.  No goroutine was started, the objective was never called.
+AbortOK ==
+    /\ Run.result.calls = 0 /\ Run.result.calls_g = 0 /\ Run.result.calls_h = 0
+    /\ Run.result.goroutines = 0 /\ Run.result.nilres = 1
+    /\ CASE Run.abort = "uses" -> Run.result.panicked = 1
+         [] Run.abort = "recinit" -> Run.result.panicked = 0 /\ Run.result.errkind = "recorder" /\ Run.result.recfail = "recinit"
+         [] Run.abort = "recfirst" -> Run.result.panicked = 0 /\ Run.result.errkind = "recorder" /\ Run.result.recfail = "init"
+         [] Run.abort = "status0" -> Run.result.panicked = 0 /\ Run.result.errkind = "probstatus"
+         [] OTHER -> FALSE
 
 NextRun ==
-    /\ r <= Len(TraceLog) /\ RunConsumed /\ ResultOK
+    /\ r <= Len(TraceLog) /\ RunConsumed
+    /\ IF Run.abort = "none" THEN ResultOK ELSE AbortOK
     /\ IF r < Len(TraceLog)
        THEN LET k == r + 1 IN RunInitNext(k)
        ELSE /\ r' = r + 1 /\ UNCHANGED <<vars, cur, fl, gl, hl, il>>
@@ -159,6 +232,7 @@ TraceNext ==
   /\ r <= Len(TraceLog)
   /\
     \/ TMSend \/ TMClose \/ TMRecv \/ TMSawClosed
+    \/ SMSend \/ SMRecv \/ SMClose
     \/ TDRecvOp \/ TDDone \/ TDDrainOp \/ TDExit \/ TDSendStats
     \/ \E w \in Wk : TDSendWorker(w) \/ TWEval(w) \/ TWSend(w) \/ TWClosed(w) \/ TWSendDone(w)
     \/ TSProc \/ SilentSigProc \/ TSCloseResults \/ TSPost \/ SilentSPost \/ TSBack \/ SilentSBack \/ TSExit
